@@ -299,11 +299,23 @@ def run_perm(args):
         cmd = [str(vf.TYPESHARE), '--lang', lang, '-d', str(out / 'gen')] + extra + [str(tree)]
     else:
         cmd = [str(vf.TYPESHARE), '--lang', lang, '-o', str(out / f'out.{ext}')] + extra + [str(tree)]
-    try:
-        p = subprocess.run(['timeout', '30'] + cmd, capture_output=True, text=True, timeout=40, env=env)
-        rc = p.returncode
-    except subprocess.TimeoutExpired:
-        rc = 124
+    # a run that hits the time limit is repeated (twice at most): a hang of the code under test under this arrival order repeats, a stall
+    # of the machine does not (thorough tier, once: a 20 ms run timed out while the sandbox was being snapshotted - the replay and 1500
+    # stress runs of the same order finish in under 0.3 s; reporting that as "different output bytes" was a false alarm)
+    for attempt in range(3):
+        try:
+            p = subprocess.run(['timeout', '30'] + cmd, capture_output=True, text=True, timeout=40, env=env)
+            rc = p.returncode
+        except subprocess.TimeoutExpired:
+            rc = 124
+        if rc != 124:
+            break
+        shutil.rmtree(out, ignore_errors=True)
+        out = vf.tmpdir()
+        if multi:
+            cmd = [str(vf.TYPESHARE), '--lang', lang, '-d', str(out / 'gen')] + extra + [str(tree)]
+        else:
+            cmd = [str(vf.TYPESHARE), '--lang', lang, '-o', str(out / f'out.{ext}')] + extra + [str(tree)]
     dg = digest_dir(out)
     text = None
     if not multi and (out / f'out.{ext}').exists():
